@@ -3,7 +3,8 @@
 # against the seeded change (applied to /repo, then reverted) and writes seeded/RESULTS.tsv.
 # Never run while another check is using /repo.
 . "$(dirname "$0")/env.sh"
-trap 'git -C /repo checkout -q -- .' EXIT
+# restore /repo on the way out, but only if this process is the one that changed it
+trap '[ -n "$VERIF_REPO_LOCK_HELD" ] && git -C /repo checkout -q -- .' EXIT
 out="$VERIF_ROOT/seeded/RESULTS.tsv"
 [ -z "$1" ] && : > "$out"
 for d in "$VERIF_ROOT"/seeded/${1:-*}/; do
